@@ -70,7 +70,7 @@ StepAR(e) ==
                 [] e.op = "dchain" -> AR!DAChain(arv, e.a, e.b) [] e.op = "dchaina" -> AR!DAChainArr(arv, e.a)
         r  == IF e.op = "demplace" THEN Len(arv.da) ELSE IF e.op = "bemplace" THEN Len(arv.db) ELSE 0
     IN  IF e.sa # AR!SAIter(na) \/ e.da # na.da \/ e.dai # na.da \/ e.db # na.db \/ e.cnt # Len(na.da) \/ e.r # r
-           \/ e.sempty # B(AR!SAEmpty(na)) \/ e.dempty # B(na.da = <<>>)
+           \/ e.sempty # B(AR!SAEmpty(na)) \/ e.dempty # B(na.da = <<>>) \/ e.forms # 1
         THEN Bad("array differs from the function / sequence model", [sa |-> AR!SAIter(na), da |-> na.da, db |-> na.db, r |-> r], e)
         ELSE arv' = na /\ l' = l + 1 /\ Keep /\ UNCHANGED <<pl, bav, bsbuf, bswcur, bsrcur>>
 
